@@ -14,6 +14,9 @@ PRIM = {
     "long": (True, 64), "unsigned long": (False, 64), "long long": (True, 64), "unsigned long long": (False, 64),
     "__int128": (True, 128), "unsigned __int128": (False, 128),
 }
+PRIM.update({"uint8_t": (False, 8), "uint16_t": (False, 16), "uint32_t": (False, 32), "uint64_t": (False, 64),
+             "int8_t": (True, 8), "int16_t": (True, 16), "int32_t": (True, 32), "int64_t": (True, 64), "size_t": (False, 64),
+             "u8": (False, 8), "u16": (False, 16), "u32": (False, 32), "u64": (False, 64), "__le16": (False, 16), "__le32": (False, 32), "__le64": (False, 64)})
 CALLS = {"malloc", "calloc", "realloc", "free", "memcpy", "memmove", "memset", "memcmp", "strncpy", "strncmp", "snprintf", "strlen",
          "strnlen", "getrandom", "libwifi_crc32", "libwifi_calculate_fcs"}
 BINOPS = {"+": "OAdd", "-": "OSub", "*": "OMul", "/": "ODiv", "%": "ORem", "<<": "OShl", ">>": "OShr", "&": "OAnd", "|": "OOr",
@@ -84,10 +87,13 @@ class Ctx:
     def text(self, n):
         r = n.get("range") or {}
         b, e = r.get("begin") or {}, r.get("end") or {}
-        if "expansionLoc" in b:
-            b = b["expansionLoc"]
-        if "expansionLoc" in e:
-            e = e["expansionLoc"]
+        # a token of a macro ARGUMENT is spelled in this file (use that), a token of a macro BODY is spelled where the macro is defined
+        # (then the expansion site is all there is)
+        def pick(x):
+            if "spellingLoc" in x and x["spellingLoc"].get("_file") == self.path and "offset" in x["spellingLoc"]:
+                return x["spellingLoc"]
+            return x.get("expansionLoc", x)
+        b, e = pick(b), pick(e)
         if "offset" not in b or "offset" not in e:
             return None
         if b.get("_file") != self.path or e.get("_file") != self.path:
@@ -243,6 +249,38 @@ def addr_of(cx, n, addr_taken=False):
     return None
 
 
+def stmtexpr_load(cx, n):
+    """the GNU statement expression of get_unaligned(): ({ T tmp; memmove(&tmp, P, sizeof tmp); tmp; }) is a load of T from P"""
+    q = qual(n.get("type"))
+    mt = re.fullmatch(r"typeof \(\*\(\((\w+) \*\)\(.*\)\)\)", q)
+    if mt:
+        q = mt.group(1)                       # typeof(*((T *)(p))) is T
+    lt = cx.cty(q)
+    if not lt or is_ptr(q) or is_arr(q):
+        return None
+    calls = [m for m in astq.walk(n) if m.get("kind") == "CallExpr"]
+    if len(calls) != 1:
+        return None
+    ci = calls[0].get("inner") or []
+    callee = astq.strip(ci[0]) if ci else {}
+    nm = (callee.get("referencedDecl") or {}).get("name")
+    if nm not in ("memmove", "memcpy", "__builtin_memmove", "__builtin_memcpy") or len(ci) != 4:
+        return None
+    d0 = ci[1]
+    while d0.get("kind") in ("ParenExpr", "ImplicitCastExpr", "CStyleCastExpr") and d0.get("inner"):
+        d0 = d0["inner"][0]
+    if not (d0.get("kind") == "UnaryOperator" and d0.get("opcode") == "&"):
+        return None
+    szv = astq.const_value(ci[3])
+    if szv is None:
+        e3 = expr(cx, ci[3])
+        m_ = re.fullmatch(r"\(CLit u64 (\d+)\)", e3)
+        szv = int(m_.group(1)) if m_ else None
+    if szv is None or szv * 8 != lt[1]:
+        return None
+    return "(CLoad %s %s)" % (cx.tystr(q), expr(cx, ci[2]))
+
+
 def expr(cx, n):
     """-> Coq cexpr text"""
     if not isinstance(n, dict):
@@ -255,6 +293,9 @@ def expr(cx, n):
         return expr(cx, inner[0]) if inner else "CUnknown"
     if k == "IntegerLiteral" and ty:
         return "(CLit %s %s)" % (ty, zl(int(n["value"])))
+    if k == "StmtExpr":
+        ld = stmtexpr_load(cx, n)
+        return ld if ld is not None else "CUnknown"
     if k == "StringLiteral":
         v = astq.string_literal(n)
         if v is None:
@@ -317,7 +358,7 @@ def expr(cx, n):
                 return "(CCast u64 %s)" % a          # &p->f, &p[i] through a pointer into memory: the address itself
             t = cx.text(n)
             return "(CVar u64 %s)" % coq_s(t) if t else "CUnknown"
-        u = {"-": "UNeg", "~": "UNot", "!": "ULNot", "+": None}.get(op, "?")
+        u = {"-": "UNeg", "~": "UNot", "!": "ULNot", "+": None, "__extension__": None}.get(op, "?")
         if u == "?" or not ty or not inner:
             return "CUnknown"
         if u is None:
@@ -405,6 +446,8 @@ def sites_of(cx, fn):
 
         def post(x):                      # a call's arguments are evaluated before the call: inner calls first
             if isinstance(x, dict):
+                if x.get("kind") == "StmtExpr" and stmtexpr_load(cx, x) is not None:
+                    return                    # translated as a load: its memmove is not a call of the routine
                 for c in x.get("inner", []) or []:
                     yield from post(c)
                 yield x
